@@ -14,6 +14,7 @@ mod c01;
 mod c02;
 mod c07;
 mod c19;
+mod c24;
 mod util;
 
 use serde_json::{json, Value};
@@ -78,6 +79,8 @@ fn search(twin: &str, case: Option<&str>, seed: u64) -> Option<Value> {
         c07::search(twin, case, seed)
     } else if twin.starts_with("c19.") {
         c19::search(twin, case, seed)
+    } else if twin.starts_with("c24.") {
+        c24::search(twin, case, seed)
     } else {
         None
     }
@@ -92,6 +95,8 @@ fn replay(twin: &str, input: &Value) -> Value {
         c07::replay(twin, input)
     } else if twin.starts_with("c19.") {
         c19::replay(twin, input)
+    } else if twin.starts_with("c24.") {
+        c24::replay(twin, input)
     } else {
         json!({"agrees": true, "note": "unknown twin"})
     }
@@ -106,6 +111,8 @@ fn sweep(twin: &str, seed: u64) -> Value {
         c07::sweep(twin, seed)
     } else if twin.starts_with("c19.") {
         c19::sweep(twin, seed)
+    } else if twin.starts_with("c24.") {
+        c24::sweep(twin, seed)
     } else {
         json!({"evaluations": 0, "disagreements": 0})
     }
